@@ -12,9 +12,12 @@ import (
 
 	"github.com/yorkie-team/yorkie/api/types"
 	"github.com/yorkie-team/yorkie/pkg/document"
+	"github.com/yorkie-team/yorkie/pkg/document/change"
 	"github.com/yorkie-team/yorkie/pkg/document/json"
 	"github.com/yorkie-team/yorkie/pkg/document/presence"
 	"github.com/yorkie-team/yorkie/pkg/key"
+	"github.com/yorkie-team/yorkie/server/documents"
+	"github.com/yorkie-team/yorkie/server/packs"
 )
 
 // Replica is the harness view of one client.
@@ -27,14 +30,18 @@ type Replica struct {
 
 // Runner executes histories on one server.
 type Runner struct {
-	S         *sim.Server
-	ServerDoc bool // C02/C20: compare server-side rebuilds with a replica fed change by change
-	seq       int
-	Hook      func(r *Run, stepIdx int, st *Step) // optional: called after each step
+	S               *sim.Server
+	ServerDoc       bool // C02/C20: compare server-side rebuilds with a replica fed change by change
+	ServerDocSparse bool // rebuild only after some of the steps
+	seq             int
+	Hook            func(r *Run, stepIdx int, st *Step) // optional: called after each step
 }
 
 // Run is the state of one execution.
 type Run struct {
+	Stale           []bool // client attached under an older epoch (a compaction happened since)
+	Compactions     int
+	ref             *RefReplica
 	Trace           []sim.CallRec
 	FirstNoPresence bool
 	H               *History
@@ -211,7 +218,7 @@ func (rn *Runner) Start(ctx context.Context, h *History) (*Run, error) {
 	if err != nil {
 		return nil, err
 	}
-	r := &Run{H: h, Out: &Outcome{}, DocKey: fmt.Sprintf("d%d-%d", gotime.Now().UnixNano()%1000000, rn.seq), Project: p, S: rn.S}
+	r := &Run{H: h, Stale: make([]bool, h.N), Out: &Outcome{}, DocKey: fmt.Sprintf("d%d-%d", gotime.Now().UnixNano()%1000000, rn.seq), Project: p, S: rn.S}
 	if err := key.Key(r.DocKey).Validate(); err != nil {
 		return nil, err
 	}
@@ -245,8 +252,88 @@ func (r *Run) Exec(ctx context.Context, idx int, st *Step) (obs StepObs) {
 	return r.exec(ctx, idx, st)
 }
 
+// compactStep runs a (forced) compaction through the cluster client, as housekeeping does.
+func (r *Run) compactStep(ctx context.Context, idx int, force bool) StepObs {
+	obs := StepObs{}
+	id, ok := r.docID()
+	if !ok {
+		obs.Skipped = true
+		return obs
+	}
+	be := r.S.Be
+	ref := types.DocRefKey{ProjectID: r.Project.ID, DocID: id}
+	info, err := be.DB.FindDocInfoByRefKey(ctx, ref)
+	if err != nil {
+		obs.Skipped = true
+		return obs
+	}
+	anyAttached := false
+	for _, rp := range r.R {
+		if rp.A != nil && rp.A.Attached {
+			anyAttached = true
+		}
+	}
+	before, berr := packs.BuildInternalDocForServerSeq(ctx, be, info, info.ServerSeq)
+	rowsBefore, _ := be.DB.FindChangeInfosBetweenServerSeqs(ctx, ref, 1, 1<<40)
+	_, cerr := documents.CompactDocument(ctx, be, r.Project, info, force)
+	be.WaitBackgroundIdleForVerif()
+	after, _ := be.DB.FindDocInfoByRefKey(ctx, ref)
+	rowsAfter, _ := be.DB.FindChangesBetweenServerSeqs(ctx, ref, 1, 1<<40)
+	compacted := cerr == nil && after != nil && after.Epoch > info.Epoch
+	rec := sim.CallRec{Kind: "compact", Force: force}
+	if !compacted {
+		rec.Err = fmt.Errorf("not compacted: %v", cerr)
+		obs.Err = ""
+	}
+	if compacted && len(rowsAfter) == 1 {
+		rec.Row = rowsAfter[0]
+	}
+	r.Trace = append(r.Trace, rec)
+	// oracles of C10
+	if !force && anyAttached && compacted {
+		r.problem("compacted-while-attached", idx, "non-forced compaction went through although a client is attached")
+	}
+	if !compacted && after != nil && (after.Epoch != info.Epoch || len(rowsAfter) != len(rowsBefore)) {
+		r.problem("refused-compaction-changed-state", idx, "epoch %d -> %d, rows %d -> %d", info.Epoch, after.Epoch, len(rowsBefore), len(rowsAfter))
+	}
+	if compacted {
+		if after.Epoch <= info.Epoch {
+			r.problem("epoch-not-increased", idx, "%d -> %d", info.Epoch, after.Epoch)
+		}
+		if len(rowsAfter) > 1 {
+			r.problem("compacted-log-too-long", idx, "%d rows", len(rowsAfter))
+		}
+		if berr == nil {
+			// what a later attacher receives = the compacted log applied to an empty document
+			// (computed here from the stored rows only: a server-side rebuild would refresh the
+			// snapshot cache and hide a stale entry)
+			fresh := document.NewInternalDocument(key.Key(r.DocKey))
+			ferr := fresh.ApplyChangePack(change.NewPack(key.Key(r.DocKey), change.InitialCheckpoint.NextServerSeq(after.ServerSeq), rowsAfter, nil, nil), true)
+			if ferr != nil {
+				r.problem("compacted-doc-unbuildable", idx, "%v", ferr)
+			} else if fresh.Marshal() != before.Marshal() {
+				r.problem("compaction-changed-content", idx, "before %s after %s", trunc(before.Marshal(), 300), trunc(fresh.Marshal(), 300))
+			}
+		}
+		for i, rp := range r.R {
+			if rp.A != nil && rp.A.Attached {
+				r.Stale[i] = true
+			}
+		}
+		r.Compactions++
+		if r.ref != nil {
+			// the log starts over: so does the replica that applies every change
+			*r.ref = *newRef(r.DocKey)
+		}
+	}
+	return obs
+}
+
 func (r *Run) exec(ctx context.Context, idx int, st *Step) StepObs {
 	obs := StepObs{}
+	if st.Op == "K" || st.Op == "Kf" {
+		return r.compactStep(ctx, idx, st.Op == "Kf")
+	}
 	if st.C < 0 || st.C >= len(r.R) {
 		obs.Skipped = true
 		return obs
@@ -279,6 +366,13 @@ func (r *Run) exec(ctx context.Context, idx int, st *Step) StepObs {
 			return obs
 		}
 		err = rp.A.Detach(ctx)
+		if r.Stale[st.C] && err != nil {
+			r.problem("stale-detach-refused", idx, "client %d: %v", st.C, err)
+			err = nil
+		}
+		if err == nil {
+			r.Stale[st.C] = false
+		}
 	case "R":
 		if !attached || rp.Inflight != nil || rp.Lost != nil {
 			obs.Skipped = true
@@ -306,15 +400,42 @@ func (r *Run) exec(ctx context.Context, idx int, st *Step) StepObs {
 				break
 			}
 		}
+		if r.Stale[st.C] {
+			rows0 := r.logLen(ctx)
+			err = rp.A.Sync(ctx)
+			if err == nil || !strings.Contains(err.Error(), "epoch") {
+				r.problem("stale-sync-not-refused", idx, "client %d of an older epoch synced: %v", st.C, err)
+			}
+			if rows1 := r.logLen(ctx); rows1 != rows0 {
+				r.problem("stale-sync-stored-changes", idx, "client %d: log %d -> %d rows", st.C, rows0, rows1)
+			}
+			err = nil
+			break
+		}
 		err = rp.A.Sync(ctx)
 	case "Sp": // push-only sync
 		if !attached || rp.Inflight != nil || rp.Lost != nil {
 			obs.Skipped = true
 			return obs
 		}
+		if r.Stale[st.C] {
+			// a push-only request of an old-epoch client is answered (nothing is pulled, so
+			// nothing can be compared), but whatever it carries must be discarded
+			rows0 := r.logLen(ctx)
+			f := rp.A.SyncBegin(ctx, true)
+			if rows1 := r.logLen(ctx); rows1 != rows0 {
+				r.problem("stale-sync-stored-changes", idx, "client %d (push-only): log %d -> %d rows", st.C, rows0, rows1)
+			}
+			if f.Err == nil {
+				// the client believes its changes were accepted; they are lost with the old
+				// generation anyway: the harness drops the response
+				r.Trace[len(r.Trace)-1].Lost = true
+			}
+			break
+		}
 		err = rp.A.SyncBegin(ctx, true).Apply()
 	case "Sb":
-		if !attached || rp.Inflight != nil || rp.Lost != nil {
+		if !attached || rp.Inflight != nil || rp.Lost != nil || r.Stale[st.C] {
 			obs.Skipped = true
 			return obs
 		}
@@ -331,7 +452,7 @@ func (r *Run) exec(ctx context.Context, idx int, st *Step) StepObs {
 		err = rp.Inflight.Apply()
 		rp.Inflight = nil
 	case "Sl": // the server handles the request, the response is lost; the client does not know
-		if !attached || rp.Inflight != nil || rp.Lost != nil {
+		if !attached || rp.Inflight != nil || rp.Lost != nil || r.Stale[st.C] {
 			obs.Skipped = true
 			return obs
 		}
@@ -351,7 +472,7 @@ func (r *Run) exec(ctx context.Context, idx int, st *Step) StepObs {
 		rp.Lost = nil
 		err = second.Apply()
 	case "Sr": // response lost, identical request retried, second response applied
-		if !attached || rp.Inflight != nil || rp.Lost != nil {
+		if !attached || rp.Inflight != nil || rp.Lost != nil || r.Stale[st.C] {
 			obs.Skipped = true
 			return obs
 		}
@@ -412,6 +533,18 @@ func (r *Run) exec(ctx context.Context, idx int, st *Step) StepObs {
 		obs.Pushed = len(rp.A.Doc.CreateChangePack().Changes) - localBefore
 	}
 	return obs
+}
+
+func (r *Run) logLen(ctx context.Context) int {
+	id, ok := r.docID()
+	if !ok {
+		return 0
+	}
+	infos, err := r.S.Be.DB.FindChangeInfosBetweenServerSeqs(ctx, types.DocRefKey{ProjectID: r.Project.ID, DocID: id}, 1, 1<<40)
+	if err != nil {
+		return -1
+	}
+	return len(infos)
 }
 
 func trunc(s string, n int) string {
@@ -478,12 +611,16 @@ func (rn *Runner) RunFull(ctx context.Context, h *History) (*Run, *Outcome) {
 	var ref *RefReplica
 	if rn.ServerDoc {
 		ref = newRef(r.DocKey)
+		r.ref = ref
 	}
 	for i := range h.Steps {
 		st := &h.Steps[i]
 		o := r.Exec(ctx, i, st)
 		r.Out.Steps = append(r.Out.Steps, o)
-		if ref != nil && (st.Op == "S" || st.Op == "Sb" || st.Op == "Sp" || st.Op == "Sr" || st.Op == "A" || st.Op == "D") && !o.Skipped {
+		// a rebuild refreshes the snapshot cache, so rebuilding after every step would hide a stale
+		// entry: in sparse mode only about one eligible step in five is followed by a rebuild
+		sparseOK := !rn.ServerDocSparse || (uint64(i)*2654435761+h.Seed*40503+uint64(len(h.Steps)))%5 == 0
+		if ref != nil && sparseOK && (st.Op == "S" || st.Op == "Sb" || st.Op == "Sp" || st.Op == "Sr" || st.Op == "A" || st.Op == "D" || st.Op == "K" || st.Op == "Kf") && !o.Skipped {
 			r.CheckServerDocNow(ctx, ref, i)
 		}
 		if rn.Hook != nil {
@@ -511,6 +648,17 @@ func (r *Run) Finish(ctx context.Context) {
 		if rp.Inflight != nil {
 			if o := r.Exec(ctx, n, &Step{Op: "Se", C: i}); o.Err != "" {
 				r.problem("sync-error", n, "client %d (pending response): %s", i, o.Err)
+			}
+		}
+	}
+	for i := range r.R {
+		if r.Stale[i] && r.R[i].A != nil && r.R[i].A.Attached && r.R[i].Inflight == nil {
+			// a stale client has to let go and attach again with a fresh document
+			if o := r.Exec(ctx, n, &Step{Op: "D", C: i}); o.Err != "" {
+				r.problem("stale-detach-refused", n, "client %d: %s", i, o.Err)
+			}
+			if o := r.Exec(ctx, n, &Step{Op: "A", C: i}); o.Err != "" {
+				r.problem("sync-error", n, "client %d (re-attach after compaction): %s", i, o.Err)
 			}
 		}
 	}
